@@ -679,6 +679,7 @@ CMR_ERROR CMRbalancedTest(CMR* cmr, CMR_CHRMAT* matrix, bool* pisBalanced, CMR_S
   CMR_CALL( CMRsort(cmr, numComponents, orderedComponents, sizeof(CMR_BLOCK*), &compareBlockComponents) );
 
   *pisBalanced = true;
+  CMR_ERROR error = CMR_OKAY;
   for (size_t comp = 0; comp < numComponents; ++comp)
   {
     CMR_BLOCK* component = orderedComponents[comp];
@@ -688,9 +689,11 @@ CMR_ERROR CMRbalancedTest(CMR* cmr, CMR_CHRMAT* matrix, bool* pisBalanced, CMR_S
     CMRdbgMsg(2, "Processing block %zu.\n", comp);
 
     double time = ((clock() - startClock) * 1.0 / CLOCKS_PER_SEC);
-    if (*pisBalanced && time < timeLimit)
+    if (*pisBalanced && time < timeLimit && error == CMR_OKAY)
     {
-      CMR_CALL( balancedTestConnected(cmr, matrix, pisBalanced, psubmatrix, params, stats, timeLimit - time) );
+      error = balancedTestConnected(cmr, matrix, pisBalanced, psubmatrix, params, stats, timeLimit - time);
+      if (error != CMR_OKAY)
+        *pisBalanced = true; /* Undetermined; the remaining blocks are only released. */
 
       /* If the component was not balanced, then we modify its violating submatrix to be one of the input matrix. */
       if (!*pisBalanced && psubmatrix)
@@ -720,6 +723,13 @@ CMR_ERROR CMRbalancedTest(CMR* cmr, CMR_CHRMAT* matrix, bool* pisBalanced, CMR_S
     stats->totalTime += time;
   }
 
-  return time < timeLimit ? CMR_OKAY : CMR_ERROR_TIMEOUT;
+  if (error == CMR_OKAY && time >= timeLimit)
+    error = CMR_ERROR_TIMEOUT;
+
+  /* No result object is handed out together with an error. */
+  if (error != CMR_OKAY && psubmatrix && *psubmatrix)
+    CMR_CALL( CMRsubmatFree(cmr, psubmatrix) );
+
+  return error;
 }
 
